@@ -13,7 +13,8 @@ EXTENDS Palette, Json
 CONSTANT MaxCalls
 
 H1 == [EmptyHeader EXCEPT !.alg = <<Assigned("Algorithm", "ES256")>>]
-H2 == [EmptyHeader EXCEPT !.alg = <<Assigned("Algorithm", "ES256")>>, !.kid = <<49>>]
+H2 == [EmptyHeader EXCEPT !.alg = <<Assigned("Algorithm", "ES256")>>, !.kid = <<49>>,
+                          !.ct = <<TextL(<<65, 47, 98, 59, 32, 81, 61, 90>>)>>]          \* content type "A/b; Q=Z" (upper case, interior space)
 U1 == [EmptyHeader EXCEPT !.kid = <<50>>]
 A1 == <<161>>
 A2 == <<162, 162>>
